@@ -147,6 +147,8 @@ def mk_unit(be, tls, tier, table_ops=True):
     lifecycle = [('impl_destroy_sandbox', 's.destroy_sandbox();', '$ROOT(&be);')]
     if be == 'noop':
         lifecycle.append(('impl_create_sandbox', 's.create_sandbox();', '$ROOT(&be);'))
+    # (the dylib backend's impl_create_sandbox is not under contract: its failure path builds a diagnostic std::string with
+    # operator+=, for which there is no model - a change there that clears the slot table is not seen, seeded/W184)
     for fnm, expr, call in lifecycle:
         cl = [('obj', '__CPROVER_requires(__CPROVER_rw_ok($this, sizeof(struct %s)))' % BS),
               ('slot_table_untouched', '__CPROVER_ensures(%s)' % conj(lambda i: '(%s == __CPROVER_old(%s) && %s == __CPROVER_old(%s))' % (K(i), K(i), C(i), C(i)))),
@@ -154,8 +156,10 @@ def mk_unit(be, tls, tier, table_ops=True):
         h = '  struct %s be;\n  %s\n' % (BS, call)
         pick = lambda tu, fn, fnm=fnm: find_func(tu, fnm, 'rlbox::' + cls)
         insts.append(Inst('c12_%s_%s_%s_keeps_slot_table' % (be, tls, fnm), 'rlbox_sandbox<%s>& s' % cls, expr, cl, h, leaves=['dynamic_check'], prop=PROP, root_name=fnm, tier=tier,
-                          pre=PRE_GHOST + ' int dlclose(void *handle)\n__CPROVER_requires(1)\n__CPROVER_ensures(1)\n__CPROVER_assigns();\n', root_pick=pick,
-                          opts={'extern_functions': ('dlclose',)}, extra_replace=['dlclose'],
+                          pre=PRE_GHOST + (' int dlclose(void *handle)\n__CPROVER_requires(1)\n__CPROVER_ensures(1)\n__CPROVER_assigns();\n'
+                                           ' void *dlopen(const char *path, int flags)\n__CPROVER_requires(1)\n__CPROVER_ensures(1)\n__CPROVER_assigns();\n'
+                                           ' char *dlerror(void)\n__CPROVER_requires(1)\n__CPROVER_ensures(1)\n__CPROVER_assigns();\n'), root_pick=pick,
+                          opts={'extern_functions': ('dlclose', 'dlopen', 'dlerror')}, extra_replace=['dlclose', 'dlopen', 'dlerror'],
                           note='frame of a backend life-cycle function over the 64-slot table'))
     if not table_ops:
         # register/unregister do not touch the per-thread record: TLS-independent, verified once per backend
@@ -229,11 +233,15 @@ def units(tier):
     it.name = 'c12_register_requests_entry_point_for_guest_signature'
     it.prop = PROP
     from .common import base_at_offset_zero_inst
-    us.append(Unit('C12_registration', [it, base_at_offset_zero_inst('c12_executing_sandbox_pointer_designates_the_sandbox_object', PROP, ['rlbox::vsbx'], tier)]))
+    it2 = [i for i in C13.owner_insts(tier) if i.name == 'c13_callback_stored_into_a_function_pointer_cell_is_its_entry_point'][0]
+    it2.name = 'c12_callback_stored_into_a_function_pointer_cell_is_its_entry_point'
+    it2.prop = PROP
+    us.append(Unit('C12_registration', [it, it2, base_at_offset_zero_inst('c12_executing_sandbox_pointer_designates_the_sandbox_object', PROP, ['rlbox::vsbx'], tier)]))
     return us
 
 
 ASSUMPTIONS = [
+    'the dylib backend\'s impl_create_sandbox (dlopen and a diagnostic string built with std::string operator+= on the failure path) is NOT under contract: a change there that touches the slot table is not seen (seeded/W184); its other life-cycle and dispatch functions are',
     'sequential semantics: thread_local records are one global per thread (M-lock, single thread); cross-thread interference is C18 (not claimed)',
     'calls through function pointers are recording stubs: the callee behaves arbitrarily but returns; which pointer was called and with what is recorded',
     'L-dtor: the scope_exit guard\'s destructor runs at the return of impl_invoke_with_func_ptr (C++ scope-exit order assumed); exits by exception are modelled by L-throw (instances *_invoke_restores_on_exceptional_exit: the sandboxed function may throw, the lowered scope_exit destructor runs where unwinding would run it, the previous executing sandbox is restored)',
